@@ -671,11 +671,13 @@ class Item:
         self._log('R7', 'proof text before /%s/ (%d place(s))' % (anchor_re[:50], len(targets)))
         return self
 
-    def after_line(self, anchor_re, text, nth=0, fn_name=None):
+    def after_line(self, anchor_re, text, nth=0, fn_name=None, optional=False):
         """Insert text on its own line(s) after the line matched by anchor_re."""
         self._begin_splices()
         ms = self._code_matches(anchor_re, fn_name)
         if len(ms) <= nth:
+            if optional:
+                return self
             raise ExtractError('%s: anchor lost /%s/' % (self.name, anchor_re))
         m = ms[nth]
         ls = self.text.rfind('\n', 0, m.start()) + 1
